@@ -597,25 +597,282 @@ Proof. intros H R. unfold pick_next. now rewrite H, R. Qed.
 Lemma pick_first q h t : q_cur q = None -> q_s q = h :: t -> pick_next q = Some h.
 Proof. intros H R. unfold pick_next. now rewrite H, R. Qed.
 
-(* a stream operation that has been picked stays the stream's current operation, whatever is enqueued behind it and
-   however often the handler runs, until a handler pass completes it; when it completes, the next pick is the head of
-   the STREAM list (FIFO: TAILQ_INSERT_TAIL / TAILQ_FIRST) *)
-Theorem stream_current_kept : forall q op e,
-  q_cur q = Some op -> so_random op = false ->
-  (match e with SEnq _ | SHandler HKeep => True | _ => False end) ->
-  q_cur (sstep q e) = Some op /\ pick_next (sstep q e) = Some op /\ q_done (sstep q e) = q_done q.
+Definition nonrandom (l : list sop) : list sop := filter (fun op => negb (so_random op)) l.
+Definition fch (c : Z) (l : list sop) : list sop := filter (fun op => so_chan op =? c) l.
+Definition ids (l : list sop) : list Z := map so_id l.
+
+(* enqueued operations are distinct objects *)
+Definition senq_ok (q : stream) (e : sevent) : Prop :=
+  match e with SEnq op => ~ In (so_id op) (ids (q_enq q)) | _ => True end.
+Fixpoint srun_ok (q : stream) (evs : list sevent) : Prop :=
+  match evs with [] => True | e :: t => senq_ok q e /\ srun_ok (sstep q e) t end.
+
+Definition SInv (q : stream) : Prop :=
+  Forall (fun op => so_random op = false) (q_s q) /\
+  Forall (fun op => so_random op = true) (q_r q) /\
+  (forall op, q_cur q = Some op -> so_random op = false -> exists t, q_s q = op :: t) /\
+  (forall c, fch c (nonrandom (q_done q)) ++ fch c (q_s q) = fch c (nonrandom (q_enq q))) /\
+  NoDup (ids (q_s q)) /\
+  (* an operation behind the head of the STREAM list has not performed any I/O yet *)
+  Forall (fun op => ~ In (so_id op) (q_io q)) (tl (q_s q)) /\
+  (* a completed STREAM operation is on no list any more *)
+  (forall op, In op (nonrandom (q_done q)) -> ~ In (so_id op) (ids (q_s q))) /\
+  (* bookkeeping: everything is made of enqueued operations, which are distinct objects *)
+  NoDup (ids (q_enq q)) /\ incl (q_s q) (q_enq q) /\ incl (q_r q) (q_enq q) /\
+  incl (q_io q) (ids (q_enq q)) /\ incl (q_done q) (q_enq q).
+
+Lemma same_op_refl a : same_op a a = true. Proof. apply Z.eqb_refl. Qed.
+Lemma nonrandom_app a b : nonrandom (a ++ b) = nonrandom a ++ nonrandom b.
+Proof. apply filter_app. Qed.
+Lemma fch_app c a b : fch c (a ++ b) = fch c a ++ fch c b.
+Proof. apply filter_app. Qed.
+Lemma nonrandom_id l : Forall (fun op => so_random op = false) l -> nonrandom l = l.
+Proof. induction 1; simpl; auto. rewrite H. simpl. now f_equal. Qed.
+Lemma nonrandom_none l : Forall (fun op => so_random op = true) l -> nonrandom l = [].
+Proof. induction 1; simpl; auto. rewrite H. simpl. auto. Qed.
+Lemma next_after_In : forall l a n, next_after a l = Some n -> In n l.
 Proof.
-  intros q op e C R He. destruct e as [x| [ | | ] |]; try contradiction; cbn [sstep].
-  - cbn. split; auto. split; auto. unfold pick_next. cbn. now rewrite C, R.
-  - rewrite (pick_keeps_current q op C R). cbn. split; auto. split; auto. unfold pick_next. cbn. now rewrite R.
+  induction l as [|h t IH]; cbn; intros a n H; try discriminate.
+  destruct (same_op a h).
+  - destruct t; inversion H; subst; cbn; auto.
+  - right. eapply IH; eauto.
+Qed.
+Lemma filter_sub_Forall {A} (P : A -> Prop) f (l : list A) : Forall P l -> Forall P (filter f l).
+Proof. induction 1; simpl; auto. destruct (f x); auto. Qed.
+Lemma filter_incl {A} f (l : list A) : incl (filter f l) l.
+Proof. intros x H. apply filter_In in H. tauto. Qed.
+Lemma ids_incl a b : incl a b -> incl (ids a) (ids b).
+Proof. intros H x Hx. unfold ids in *. apply in_map_iff in Hx. destruct Hx as (y & <- & Hy). apply in_map. auto. Qed.
+Lemma NoDup_ids_filter f l : NoDup (ids l) -> NoDup (ids (filter f l)).
+Proof.
+  induction l as [|h t IH]; simpl; intros H; auto. inversion H; subst.
+  destruct (f h); simpl; auto. constructor; auto. intros X. apply H2. now apply (ids_incl _ _ (filter_incl f t)).
+Qed.
+Lemma remove_first_incl a l : incl (remove_first a l) l.
+Proof. induction l as [|h t IH]; cbn; [apply incl_refl|]. destruct (same_op a h); [apply incl_tl, incl_refl|]. intros x [->|H]; cbn; auto. Qed.
+Lemma same_id_eq l a b : NoDup (ids l) -> In a l -> In b l -> so_id a = so_id b -> a = b.
+Proof.
+  induction l as [|h t IH]; [contradiction|]. cbn. intros ND Ha Hb E. inversion ND; subst.
+  destruct Ha as [->|Ha], Hb as [->|Hb]; auto.
+  - exfalso. apply H1. rewrite E. now apply in_map.
+  - exfalso. apply H1. rewrite <- E. now apply in_map.
+Qed.
+Lemma NoDup_snoc {A} (l : list A) x : NoDup l -> ~ In x l -> NoDup (l ++ [x]).
+Proof.
+  induction l as [|h t IH]; cbn; intros ND H; [constructor; auto; constructor|].
+  inversion ND; subst. constructor.
+  - intros X. apply in_app_or in X. destruct X as [X|[X|[]]]; auto.
+  - apply IH; auto.
 Qed.
 
-Theorem stream_completion_is_of_current : forall q op,
-  q_cur q = Some op -> so_random op = false ->
-  q_done (sstep q (SHandler HComplete)) = q_done q ++ [op] /\ q_cur (sstep q (SHandler HComplete)) = None.
+(* two filters that agree / disagree on the elements a third one selects *)
+Lemma filter_split_yes {A} (f m : A -> bool) l : (forall x, f x = true -> m x = true) ->
+  filter f (filter m l) = filter f l /\ filter f (filter (fun x => negb (m x)) l) = [].
 Proof.
-  intros q op C R. cbn [sstep]. rewrite (pick_keeps_current q op C R). unfold complete_op. cbn.
-  rewrite C. unfold same_op. now rewrite Z.eqb_refl.
+  intros H. induction l as [|h t [I1 I2]]; simpl; auto.
+  destruct (f h) eqn:F.
+  - rewrite (H h F). simpl. rewrite F, I1. auto.
+  - destruct (m h); simpl; rewrite ?F; auto.
+Qed.
+Lemma filter_split_no {A} (f m : A -> bool) l : (forall x, f x = true -> m x = false) ->
+  filter f (filter m l) = [] /\ filter f (filter (fun x => negb (m x)) l) = filter f l.
+Proof.
+  intros H. induction l as [|h t [I1 I2]]; simpl; auto.
+  destruct (f h) eqn:F.
+  - rewrite (H h F). simpl. rewrite F, I2. auto.
+  - destruct (m h); simpl; rewrite ?F; auto.
+Qed.
+Lemma fch_cleanup c ch l :
+  fch c (filter (chan_match ch) l) ++ fch c (filter (fun op => negb (chan_match ch op)) l) = fch c l.
+Proof.
+  unfold fch. destruct ch as [c0|].
+  - destruct (Z.eqb_spec c0 c).
+    + subst. destruct (filter_split_yes (fun op => so_chan op =? c) (chan_match (Some c)) l) as [A B]; [cbn; auto|].
+      rewrite A, B. apply app_nil_r.
+    + destruct (filter_split_no (fun op => so_chan op =? c) (chan_match (Some c0)) l) as [A B].
+      { cbn. intros x Hx. apply Z.eqb_eq in Hx. apply Z.eqb_neq. congruence. }
+      rewrite A, B. reflexivity.
+  - destruct (filter_split_yes (fun op => so_chan op =? c) (chan_match None) l) as [A B]; [cbn; auto|].
+    rewrite A, B. apply app_nil_r.
+Qed.
+
+(* the operation the handler picks is on a list; when it is a STREAM operation it is the head of the STREAM list *)
+Lemma pick_In q op : SInv q -> pick_next q = Some op ->
+  (so_random op = false -> exists t, q_s q = op :: t) /\ In op (q_enq q).
+Proof.
+  intros (F & FR & C & _ & _ & _ & _ & _ & IS & IR & _) P. unfold pick_next in P.
+  destruct (q_cur q) as [cu|] eqn:E.
+  - destruct (so_random cu) eqn:RC; cbn [negb] in P.
+    + assert (X : In op (q_r q)).
+      { destruct (next_after cu (q_r q)) eqn:N.
+        - inversion P; subst. eapply next_after_In; eauto.
+        - destruct (q_r q); inversion P; subst; cbn; auto. }
+      split; [|now apply IR]. intros R. rewrite Forall_forall in FR. specialize (FR op X). congruence.
+    + inversion P; subst. destruct (C op eq_refl RC) as [t S]. split; [eauto|]. apply IS. rewrite S. now left.
+  - destruct (q_s q) as [|h t] eqn:S.
+    + destruct (q_r q) as [|h t] eqn:S2; inversion P; subst.
+      split; [|apply IR; now left]. intros R.
+      rewrite Forall_forall in FR. specialize (FR op (or_introl eq_refl)). congruence.
+    + inversion P; subst. split; [eauto|]. apply IS. now left.
+Qed.
+
+Lemma SInv_complete q op : SInv q -> (so_random op = false -> exists t, q_s q = op :: t) -> In op (q_enq q) ->
+  SInv (complete_op q op).
+Proof.
+  intros I Hhead Hin. pose proof I as (F & FR & C & O & ND & IO & DN & NE & IS & IR & II & ID).
+  destruct (so_random op) eqn:R.
+  - (* a RANDOM operation: the STREAM side is untouched *)
+    unfold SInv, complete_op. rewrite R. cbn [q_s q_r q_cur q_done q_enq q_io].
+    assert (NR : nonrandom (q_done q ++ [op]) = nonrandom (q_done q)).
+    { rewrite nonrandom_app. cbn. rewrite R. cbn. apply app_nil_r. }
+    rewrite NR. repeat split; auto.
+    + clear - FR. induction FR; cbn; auto. destruct (same_op op x); auto.
+    + intros o2 H2 R2. destruct (q_cur q) as [cu|]; try discriminate.
+      destruct (same_op op cu); inversion H2; subst. now apply C.
+    + eapply incl_tran; [apply remove_first_incl|exact IR].
+    + apply incl_app; auto. intros x [<-|[]]; auto.
+  - destruct (Hhead eq_refl) as [t S].
+    unfold SInv, complete_op. rewrite R, S. cbn [remove_first]. rewrite same_op_refl. cbn [q_s q_r q_cur q_done q_enq q_io].
+    rewrite S in *. inversion F as [|? ? Fh Ft]; subst. cbn in ND. inversion ND as [|? ? Nh Nt]; subst. cbn in IO.
+    assert (NR : nonrandom (q_done q ++ [op]) = nonrandom (q_done q) ++ [op]).
+    { rewrite nonrandom_app. cbn. rewrite R. reflexivity. }
+    rewrite NR. repeat split; auto.
+    + intros o2 H2 R2. destruct (q_cur q) as [cu|] eqn:Ecu; try discriminate.
+      destruct (same_op op cu) eqn:SO; inversion H2; subst.
+      destruct (C o2 eq_refl R2) as [t' E']. inversion E'; subst. rewrite same_op_refl in SO. discriminate.
+    + intros c. specialize (O c). rewrite fch_app. cbn in O |- *.
+      destruct (so_chan op =? c); cbn; rewrite <- O, <- ?app_assoc; reflexivity.
+    + destruct t; cbn; auto. inversion IO; auto.
+    + intros o2 H2. apply in_app_or in H2. destruct H2 as [H2|[H2|[]]].
+      * intros X. apply (DN o2 H2). now right.
+      * subst. assumption.
+    + intros x Hx. apply IS. now right.
+    + apply incl_app; auto. intros x [<-|[]]; auto.
+Qed.
+
+Lemma SInv_cleanup q ch : SInv q -> SInv (cleanup_ops q ch).
+Proof.
+  intros (F & FR & C & O & ND & IO & DN & NE & IS & IR & II & ID). unfold SInv, cleanup_ops. cbn [q_s q_r q_cur q_done q_enq q_io].
+  assert (NR : nonrandom (q_done q ++ filter (chan_match ch) (q_r q) ++ filter (chan_match ch) (q_s q)) =
+               nonrandom (q_done q) ++ filter (chan_match ch) (q_s q)).
+  { rewrite !nonrandom_app. rewrite (nonrandom_none (filter _ (q_r q))) by now apply filter_sub_Forall.
+    rewrite (nonrandom_id (filter _ (q_s q))) by now apply filter_sub_Forall. reflexivity. }
+  rewrite NR. repeat split; auto.
+  - now apply filter_sub_Forall.
+  - now apply filter_sub_Forall.
+  - intros o2 H2 R2. destruct (q_cur q) as [cu|] eqn:Ecu; try discriminate.
+    destruct (chan_match ch cu) eqn:M; inversion H2; subst.
+    destruct (C o2 eq_refl R2) as [t E']. rewrite E'. cbn. rewrite M. cbn. eauto.
+  - intros c. rewrite fch_app, <- app_assoc, fch_cleanup. apply O.
+  - now apply NoDup_ids_filter.
+  - destruct (q_s q) as [|h t]; cbn; auto. cbn in IO.
+    destruct (negb (chan_match ch h)); cbn.
+    + now apply filter_sub_Forall.
+    + assert (X : Forall (fun op => ~ In (so_id op) (q_io q)) (filter (fun op => negb (chan_match ch op)) t))
+        by now apply filter_sub_Forall.
+      destruct (filter _ t); cbn; auto. inversion X; auto.
+  - intros o2 H2 X. apply in_app_or in H2. destruct H2 as [H2|H2].
+    + apply (DN o2 H2). eapply ids_incl; [apply filter_incl|exact X].
+    + (* o2 matched the channel, what stays does not: the same id would be the same operation *)
+      apply filter_In in H2. destruct H2 as [H2 M].
+      unfold ids in X. apply in_map_iff in X. destruct X as (y & Ey & Hy). apply filter_In in Hy. destruct Hy as [Hy My].
+      assert (y = o2) by (eapply same_id_eq; eauto). subst. rewrite M in My. discriminate.
+  - eapply incl_tran; [apply filter_incl|exact IS].
+  - eapply incl_tran; [apply filter_incl|exact IR].
+  - apply incl_app; auto. apply incl_app; (eapply incl_tran; [apply filter_incl|]); auto.
+Qed.
+
+(* stream->op = op; _dispatch_operation_perform(op) *)
+Lemma SInv_perform q op : SInv q -> pick_next q = Some op ->
+  SInv (mkStream (q_s q) (q_r q) (Some op) (q_done q) (q_enq q) (q_io q ++ [so_id op])).
+Proof.
+  intros I P. destruct (pick_In q op I P) as [Hhead Hin].
+  pose proof I as (F & FR & C & O & ND & IO & DN & NE & IS & IR & II & ID).
+  unfold SInv. cbn [q_s q_r q_cur q_done q_enq q_io]. repeat split; auto.
+  - intros o2 H2 R2. inversion H2; subst. auto.
+  - (* nobody behind the head has the picked operation's id *)
+    rewrite Forall_forall in *. intros x Hx X. apply in_app_or in X. destruct X as [X|[X|[]]]; [now apply (IO x Hx)|].
+    assert (Hxs : In x (q_s q)) by (destruct (q_s q); [contradiction|now right]).
+    assert (x = op) by (eapply (same_id_eq (q_enq q)); eauto). subst x.
+    destruct (Hhead (F op Hxs)) as [t S]. rewrite S in ND, Hx. cbn in ND, Hx. inversion ND; subst.
+    apply H1. now apply in_map.
+  - apply incl_app; auto. intros x [<-|[]]. now apply in_map.
+Qed.
+
+Lemma step_SInv q e : SInv q -> senq_ok q e -> SInv (sstep q e).
+Proof.
+  intros I Hok. pose proof I as (F & FR & C & O & ND & IO & DN & NE & IS & IR & II & ID).
+  destruct e as [op|r|ch]; cbn [sstep].
+  - (* enqueue *) cbn in Hok. unfold SInv. cbn [q_s q_r q_cur q_done q_enq q_io].
+    assert (NE' : NoDup (ids (q_enq q ++ [op]))) by (unfold ids; rewrite map_app; cbn; now apply NoDup_snoc).
+    assert (Fresh : forall x, In x (q_enq q) -> so_id x <> so_id op)
+      by (intros x Hx E; apply Hok; rewrite <- E; now apply in_map).
+    destruct (so_random op) eqn:R.
+    + assert (NR : nonrandom (q_enq q ++ [op]) = nonrandom (q_enq q)) by (rewrite nonrandom_app; cbn; rewrite R; apply app_nil_r).
+      rewrite NR. repeat split; auto; try (apply incl_appl; auto; fail).
+      * apply Forall_app; split; auto.
+      * apply incl_app; [apply incl_appl; auto|apply incl_appr, incl_refl].
+      * unfold ids. rewrite map_app. apply incl_appl. exact II.
+    + assert (NR : nonrandom (q_enq q ++ [op]) = nonrandom (q_enq q) ++ [op]) by (rewrite nonrandom_app; cbn; now rewrite R).
+      rewrite NR. repeat split; auto; try (apply incl_appl; auto; fail).
+      * apply Forall_app; split; auto.
+      * intros o2 H2 R2. destruct (C o2 H2 R2) as [t E']. rewrite E'. cbn. eauto.
+      * intros c. rewrite !fch_app, app_assoc, O. reflexivity.
+      * unfold ids. rewrite map_app. cbn. apply NoDup_snoc; auto. intros X. apply Hok. now apply (ids_incl _ _ IS).
+      * destruct (q_s q) as [|h t] eqn:S; cbn; [constructor|]. cbn in IO. apply Forall_app. split; auto;
+        try (constructor; [|constructor]; intros X; apply Hok; now apply II).
+      * intros o2 H2 X. unfold ids in X. rewrite map_app in X. apply in_app_or in X. destruct X as [X|X].
+        -- now apply (DN o2 H2).
+        -- cbn in X. destruct X as [X|[]]. apply (Fresh o2); auto. apply ID. eapply filter_incl; eauto.
+      * apply incl_app; [apply incl_appl; auto|apply incl_appr, incl_refl].
+      * unfold ids. rewrite map_app. apply incl_appl. exact II.
+  - destruct (pick_next q) as [op|] eqn:P; auto.
+    destruct (pick_In q op I P) as [Hhead Hin].
+    pose proof (SInv_perform q op I P) as I1.
+    destruct r.
+    + now apply SInv_complete.
+    + exact I1.
+    + apply SInv_complete; auto.
+    + now apply SInv_cleanup.
+  - now apply SInv_cleanup.
+Qed.
+
+Lemma run_SInv evs : forall q, SInv q -> srun_ok q evs -> SInv (srun q evs).
+Proof. induction evs as [|e t IH]; intros q I H; simpl; auto. destruct H. apply IH; auto. now apply step_SInv. Qed.
+
+Lemma SInv_init : SInv stream_init.
+Proof.
+  unfold SInv, stream_init. cbn. repeat split; auto; try apply NoDup_nil; try apply Forall_nil; try apply incl_refl;
+    try discriminate; try (intros; contradiction).
+Qed.
+
+(* STREAM operations of one channel complete in the order they were enqueued, whatever the handler results, however
+   cleanups (stop, descriptor errors) interleave, and whatever other channels and RANDOM operations do *)
+Theorem stream_order : forall evs c,
+  srun_ok stream_init evs ->
+  let q := srun stream_init evs in
+  fch c (nonrandom (q_done q)) ++ fch c (q_s q) = fch c (nonrandom (q_enq q)).
+Proof. intros evs c H q. assert (I : SInv q) by (apply run_SInv; auto; apply SInv_init). now destruct I as (_ & _ & _ & O & _). Qed.
+
+(* ... and the data of an operation comes entirely before the data of the next: the handler performs I/O only on the
+   head of the STREAM list (the oldest STREAM operation that has not completed); an operation behind the head has not
+   performed any I/O yet, and a completed one is never picked again *)
+Theorem stream_io_one_at_a_time : forall evs,
+  srun_ok stream_init evs ->
+  let q := srun stream_init evs in
+  (forall op, pick_next q = Some op -> so_random op = false -> exists t, q_s q = op :: t) /\
+  Forall (fun op => ~ In (so_id op) (q_io q)) (tl (q_s q)) /\
+  (forall op d, pick_next q = Some op -> In d (nonrandom (q_done q)) -> so_id op <> so_id d).
+Proof.
+  intros evs H q. assert (I : SInv q) by (apply run_SInv; auto; apply SInv_init).
+  pose proof I as (F & FR & C & O & ND & IO & DN & NE & IS & IR & II & ID).
+  split; [intros op P R; now apply (pick_In q op I P)|]. split; auto.
+  intros op d P Hd E. destruct (pick_In q op I P) as [Hh Hin].
+  assert (d = op).
+  { eapply (same_id_eq (q_enq q)); eauto. apply ID. eapply filter_incl; eauto. }
+  subst d. apply filter_In in Hd. destruct Hd as [Hd R]. apply negb_true_iff in R.
+  destruct (Hh R) as [t S]. apply (DN op). { apply filter_In. split; auto. now rewrite R. }
+  rewrite S. cbn. now left.
 Qed.
 
 (* ------------------------------------------------------------------ channel parameters *)
@@ -632,3 +889,572 @@ Proof.
   - destruct (Z.ltb_spec (p_high p) v); destruct (Z.eqb_spec v 0); lia.
   - rewrite Z.gtb_ltb. destruct (Z.ltb_spec v (p_low p)); destruct (Z.eqb_spec v 0); lia.
 Qed.
+
+(* ================================================================== writes: conservation *)
+Local Arguments flat : simpl never.
+Local Arguments dsize : simpl never.
+Local Arguments dsub : simpl never.
+Lemma skipn_skipn_nat {A} (a b : nat) (l : list A) : skipn a (skipn b l) = skipn (b + a) l.
+Proof.
+  revert l. induction b; intros l; simpl; auto. destruct l; simpl; auto. now rewrite skipn_nil.
+Qed.
+Lemma zskip_skip {A} a b (l : list A) : 0 <= a -> 0 <= b ->
+  skipn (Z.to_nat a) (skipn (Z.to_nat b) l) = skipn (Z.to_nat (b + a)) l.
+Proof. intros. rewrite skipn_skipn_nat. f_equal. lia. Qed.
+Lemma ztake_app_skip {A} a b (l : list A) : 0 <= a -> 0 <= b ->
+  firstn (Z.to_nat a) l ++ firstn (Z.to_nat b) (skipn (Z.to_nat a) l) = firstn (Z.to_nat (a + b)) l.
+Proof. intros. rewrite firstn_add_skipn. f_equal. lia. Qed.
+Lemma zskip_take {A} m n (l : list A) : 0 <= m <= n ->
+  skipn (Z.to_nat m) (firstn (Z.to_nat n) l) = firstn (Z.to_nat (n - m)) (skipn (Z.to_nat m) l).
+Proof. intros. rewrite skipn_firstn_comm. f_equal. lia. Qed.
+Lemma ztake_take {A} i j (l : list A) : 0 <= i <= j ->
+  firstn (Z.to_nat i) (firstn (Z.to_nat j) l) = firstn (Z.to_nat i) l.
+Proof. intros. rewrite firstn_firstn. f_equal. lia. Qed.
+
+Lemma wbuf_scan_bounds : forall d ch acc, 0 <= acc -> acc <= wbuf_scan ch acc d <= acc + dsize d.
+Proof.
+  induction d as [|r t IH]; intros ch acc Ha; simpl.
+  - unfold dsize, flat; simpl. change (zlen (@nil Z)) with 0. lia.
+  - assert (D : dsize (r :: t) = zlen r + dsize t) by (unfold dsize, flat; simpl; now rewrite zlen_app).
+    pose proof (zlen_nonneg r). pose proof (dsize_nonneg t).
+    set (acc' := if (acc =? 0) || (acc + zlen r <=? ch) then acc + zlen r else acc).
+    assert (A' : acc <= acc' <= acc + zlen r) by (unfold acc'; destruct (_ || _); lia).
+    destruct (acc + zlen r <? ch).
+    + specialize (IH ch acc' ltac:(lia)). lia.
+    + lia.
+Qed.
+
+Definition WInv (sub : list Z) (o : op) : Prop :=
+  o_write o = true /\ o_length o = zlen sub /\
+  0 <= o_buf_len o <= o_total o /\ o_total o <= zlen sub /\
+  flat (o_data o) = skipn (Z.to_nat (o_total o - o_buf_len o)) sub /\
+  (o_hasbuf o = false -> o_buf_len o = 0) /\
+  (o_hasbuf o = true -> o_buf o = firstn (Z.to_nat (o_buf_siz o)) (flat (o_data o)) /\
+                        o_buf_len o <= o_buf_siz o <= dsize (o_data o)) /\
+  0 <= o_high o.
+
+(* what a write delivery reports: the unwritten remainder at the current position *)
+Definition wcall_ok (sub : list Z) (tot : Z) (k : call) : Prop :=
+  c_total k = tot /\ forall l, c_data k = Some l -> l = skipn (Z.to_nat tot) sub.
+
+Lemma handler_calls_write fl forced d err tot sub :
+  flat d = skipn (Z.to_nat tot) sub -> Forall (wcall_ok sub tot) (handler_calls true fl forced d err tot).
+Proof.
+  intros F. unfold handler_calls. cbn [negb andb].
+  destruct (f_done fl); [destruct (err =? 0)|]; repeat constructor; cbn; intros l E; inversion E; subst; auto.
+Qed.
+
+Lemma unwritten_flat sub o : WInv sub o ->
+  flat (dsub (o_data o) (o_buf_len o) (o_length o)) = skipn (Z.to_nat (o_total o)) sub.
+Proof.
+  intros (W & L & B & T & D & _). rewrite flat_dsub by (rewrite ?L; try apply zlen_nonneg; lia).
+  rewrite D, zskip_skip by lia. replace (o_total o - o_buf_len o + o_buf_len o) with (o_total o) by lia.
+  apply firstn_ge_all. rewrite L, zlen_skipn by lia. pose proof (zlen_nonneg sub). lia.
+Qed.
+
+Lemma deliver_write sub stp fl o o' cs : WInv sub o -> deliver_data stp fl o = (o', cs) ->
+  WInv sub o' /\ o_total o' = o_total o /\ Forall (wcall_ok sub (o_total o)) cs /\
+  (o_err o <> 0 -> o_err o' <> 0).
+Proof.
+  intros WI E. pose proof WI as (W & L & B & T & D & Hnb & Hb & Hhi).
+  unfold deliver_data in E.
+  set (und := o_undelivered o + o_buf_len o) in *.
+  set (forced := f_deliver fl || f_done fl || o_flagd o) in *.
+  assert (K : forall deliver err o1 err',
+     (o1 = set_flagd o false \/ o1 = set_err (set_flagd o false) err) -> (o_err o <> 0 -> o_err o1 <> 0) ->
+     (let '(d, o2) := dd_data deliver o1 in dd_finish fl forced deliver err' und d o2) = (o', cs) ->
+     WInv sub o' /\ o_total o' = o_total o /\ Forall (wcall_ok sub (o_total o)) cs /\ (o_err o <> 0 -> o_err o' <> 0)).
+  { intros deliver err o1 err' Ho1 He E1.
+    assert (WI1 : WInv sub o1) by (destruct Ho1; subst; unfold WInv in *; cbn; auto 10).
+    assert (F1 : o_write o1 = true /\ o_data o1 = o_data o /\ o_buf_len o1 = o_buf_len o /\ o_length o1 = o_length o /\
+                 o_hasbuf o1 = o_hasbuf o /\ o_buf_siz o1 = o_buf_siz o /\ o_total o1 = o_total o)
+      by (destruct Ho1; subst; cbn; auto 10).
+    destruct F1 as (W1 & D1 & BL1 & L1 & HB1 & BS1 & T1).
+    pose proof (unwritten_flat sub o WI) as U.
+    unfold dd_data in E1. rewrite W1, D1, BL1, L1, HB1, BS1 in E1. cbn [negb] in E1.
+    destruct (o_hasbuf o && (o_buf_len o =? o_buf_siz o)) eqn:Full.
+    - apply andb_prop in Full. destruct Full as [HB Full]. apply Z.eqb_eq in Full.
+      destruct (Hb HB) as [Bf [B1 B2]].
+      assert (U2 : flat (dsub (o_data o) (o_buf_siz o) (o_length o)) = skipn (Z.to_nat (o_total o)) sub)
+        by (rewrite <- Full; exact U).
+      unfold dd_finish in E1.
+      destruct deliver; cbn [negb orb] in E1.
+      + destruct (f_noempty fl && _) in E1; inversion E1; subst o' cs; clear E1;
+          (split; [unfold WInv; destruct Ho1; subst o1; cbn; rewrite U, Z.sub_0_r; repeat split; auto; try lia; discriminate|]);
+          (split; [destruct Ho1; subst; cbn; auto|]); (split; [|destruct Ho1; subst; cbn in *; auto]); try constructor.
+        assert (Wx : forall x, o_write (set_data (set_buf o1 false (o_buf_siz o) 0 []) x) = true) by (intros; cbn; auto).
+        cbn [o_write set_data set_buf o_total]. rewrite W1, T1. now apply handler_calls_write.
+      + inversion E1; subst o' cs; clear E1.
+        split; [unfold WInv; destruct Ho1; subst o1; cbn; rewrite U2, Z.sub_0_r; repeat split; auto; try lia; discriminate|].
+        split; [destruct Ho1; subst; cbn; auto|]. split; [constructor|destruct Ho1; subst; cbn in *; auto].
+    - unfold dd_finish in E1.
+      destruct deliver; cbn [negb orb] in E1.
+      + destruct (f_noempty fl && _) in E1; inversion E1; subst o' cs; clear E1;
+          (split; [unfold WInv in *; destruct Ho1; subst o1; cbn; auto 10|]);
+          (split; [destruct Ho1; subst; cbn; auto|]); (split; [|destruct Ho1; subst; cbn in *; auto]); try constructor.
+        cbn [o_write o_total]. rewrite W1, T1. now apply handler_calls_write.
+      + inversion E1; subst o' cs; clear E1.
+        split; [unfold WInv in *; destruct Ho1; subst o1; cbn; auto 10|].
+        split; [destruct Ho1; subst; cbn; auto|]. split; [constructor|destruct Ho1; subst; cbn in *; auto]. }
+  unfold dd_decide in E.
+  destruct (negb forced).
+  - cbn [o_low set_flagd o_buf_len o_buf_siz] in E.
+    destruct (und >=? o_low o).
+    + eapply (K true 0 (set_flagd o false)); eauto.
+    + destruct (o_buf_len o <? o_buf_siz o).
+      * inversion E; subst o' cs. split; [unfold WInv in *; cbn; auto 10|]. cbn. repeat split; auto; try constructor.
+      * eapply (K false 0 (set_flagd o false)); eauto.
+  - destruct ((o_err (set_flagd o false) =? 0) && stp).
+    + eapply (K true ECANCELED (set_err (set_flagd o false) ECANCELED)); eauto. intros _. cbn. discriminate.
+    + eapply (K true 0 (set_flagd o false)); eauto.
+Qed.
+
+Lemma WInv_set_err sub o e : WInv sub o -> WInv sub (set_err o e).
+Proof. unfold WInv. cbn. auto. Qed.
+Lemma WInv_set_flagd sub o b : WInv sub o -> WInv sub (set_flagd o b).
+Proof. unfold WInv. cbn. auto. Qed.
+
+Lemma alloc_write c sub o : WInv sub o -> 0 <= o_high o ->
+  WInv sub (alloc_buf c o) /\ o_hasbuf (alloc_buf c o) = true /\ o_total (alloc_buf c o) = o_total o /\
+  o_err (alloc_buf c o) = o_err o /\ o_buf_len (alloc_buf c o) = o_buf_len o.
+Proof.
+  intros WI Hh. pose proof WI as (W & L & B & T & D & Hnb & Hb & Hhi).
+  unfold alloc_buf. destruct (o_hasbuf o) eqn:HB; [auto 10|].
+  rewrite W. cbn [negb].
+  set (ch := if chunk_size c >? o_high o then o_high o else chunk_size c).
+  pose proof (wbuf_scan_bounds (o_data o) ch 0 ltac:(lia)) as WB.
+  set (bs0 := wbuf_scan ch 0 (o_data o)) in *.
+  set (bs := if bs0 >? o_high o then o_high o else bs0).
+  assert (BS : 0 <= bs <= dsize (o_data o)) by (unfold bs; rewrite Z.gtb_ltb; destruct (Z.ltb_spec (o_high o) bs0); lia).
+  pose proof (Hnb eq_refl) as BL0.
+  unfold WInv. cbn. repeat split; auto; lia.
+Qed.
+
+(* facts about the result code that the action table relies on (writes) *)
+Definition RQ (o : op) (r : Z) : Prop :=
+  (r = DISPATCH_OP_COMPLETE -> o_total o = o_length o \/ o_err o <> 0) /\
+  (r = DISPATCH_OP_ERR \/ r = DISPATCH_OP_FD_ERR -> o_err o <> 0) /\
+  r <> DISPATCH_OP_DELIVER_AND_COMPLETE /\ r <> DISPATCH_OP_COMPLETE_RESUME.
+
+Ltac rq := unfold RQ; cbn; repeat split; auto;
+  try solve [discriminate | let X := fresh in intro X; discriminate X | let X := fresh in intros [X|X]; discriminate X ].
+
+Lemma perform_error_write sub o fd e o' r f : WInv sub o -> e <> 0 -> perform_error o fd e = (o', r, f) ->
+  WInv sub o' /\ o_total o' = o_total o /\ RQ o' r /\ (o_err o <> 0 -> o_err o' <> 0).
+Proof.
+  intros WI He E. pose proof WI as (W & _). unfold perform_error in E. rewrite W in E. cbn [negb andb] in E.
+  destruct (e =? EAGAIN).
+  - inversion E; subst. split; auto. split; auto. split; auto. rq.
+  - destruct (e =? ECANCELED); [|destruct (e =? EBADF)]; inversion E; subst;
+      (split; [now apply WInv_set_err|]); (split; [reflexivity|]); (split; [rq|cbn; auto]).
+Qed.
+
+(* the kernel's side for writes: at most the requested length, never 0 for a non-zero length, errno <> 0 on failure *)
+Definition wres_ok (c : cfg) (o : op) (rs : list sysres) : Prop :=
+  match first_result rs with
+  | Some (Got bs) => 0 < zlen bs <= req_len c o
+  | Some (Fail e) => e <> 0
+  | None => True
+  end.
+
+Lemma perform_write c sub cl stp fd o rs o' r f moved :
+  WInv sub o -> 0 <= o_high o -> wres_ok c o rs ->
+  perform c cl stp fd o rs = (o', r, f, moved) ->
+  WInv sub o' /\ o_total o' = o_total o + zlen moved /\
+  firstn (Z.to_nat (o_total o)) sub ++ moved = firstn (Z.to_nat (o_total o')) sub /\
+  RQ o' r /\ (o_err o <> 0 -> o_err o' <> 0).
+Proof.
+  intros WI Hh Hok E. unfold perform in E.
+  assert (NIL : forall t, firstn (Z.to_nat t) sub ++ [] = firstn (Z.to_nat (t + zlen (@nil Z))) sub)
+    by (intros; change (zlen (@nil Z)) with 0; now rewrite app_nil_r, Z.add_0_r).
+  destruct (Z.eqb_spec (get_error cl stp fd true) 0) as [GE|GE]; cbn [negb] in E.
+  - destruct (alloc_write c sub o WI Hh) as (WA & HA & TA & EA & BLA).
+    unfold wres_ok in Hok.
+    destruct (first_result rs) as [[bs|e]|].
+    + destruct Hok as [P1 P2]. destruct (Z.eqb_spec (zlen bs) 0); [lia|].
+      pose proof WA as (W & L & B & T & D & Hnb & Hb & Hhi). destruct (Hb HA) as (Bf & B1 & B2).
+      unfold req_len in P2.
+      assert (TOT : o_total (alloc_buf c o) - o_buf_len (alloc_buf c o) + o_buf_siz (alloc_buf c o) <= zlen sub).
+      { unfold dsize in B2. rewrite D, zlen_skipn in B2 by lia. lia. }
+      rewrite W in E.
+      set (o2 := set_total (set_buf (alloc_buf c o) (o_hasbuf (alloc_buf c o)) (o_buf_siz (alloc_buf c o))
+                   (o_buf_len (alloc_buf c o) + zlen bs) (o_buf (alloc_buf c o))) (o_total (alloc_buf c o) + zlen bs)) in *.
+      set (mv := firstn (Z.to_nat (zlen bs)) (skipn (Z.to_nat (o_buf_len (alloc_buf c o))) (o_buf (alloc_buf c o)))) in *.
+      assert (MV : mv = firstn (Z.to_nat (zlen bs)) (skipn (Z.to_nat (o_total o)) sub)).
+      { unfold mv. rewrite Bf, D, zskip_take by lia. rewrite ztake_take by lia. rewrite zskip_skip by lia.
+        do 2 f_equal. lia. }
+      assert (ZM : zlen mv = zlen bs).
+      { rewrite MV, zlen_firstn, zlen_skipn by lia. lia. }
+      assert (E' : o' = o2 /\ moved = mv /\ RQ o2 r).
+      { cbn [o_total set_total o_length set_buf] in E.
+        destruct (Z.eqb_spec (o_total (alloc_buf c o) + zlen bs) (o_length (alloc_buf c o))); inversion E; subst;
+          (split; [reflexivity|split; [reflexivity|rq]]). }
+      destruct E' as (-> & -> & Q).
+      split; [unfold WInv, o2; cbn; rewrite HA; repeat split; auto; try lia; try discriminate;
+              rewrite D; do 2 f_equal; lia|].
+      split; [unfold o2; cbn; lia|]. split; [|split; [exact Q|unfold o2; cbn; congruence]].
+      unfold o2; cbn [o_total set_total]. rewrite MV, TA, ztake_app_skip by lia. reflexivity.
+    + destruct (perform_error (alloc_buf c o) fd e) as [[o1 r1] f1] eqn:PE. inversion E; subst.
+      destruct (perform_error_write _ _ _ _ _ _ _ WA Hok PE) as (A1 & A2 & A3 & A4).
+      rewrite A2, TA. split; auto. split; [change (zlen (@nil Z)) with 0; lia|]. split; [now rewrite app_nil_r|].
+      split; auto. intros X. apply A4. congruence.
+    + inversion E; subst. rewrite TA. split; auto. split; [change (zlen (@nil Z)) with 0; lia|]. split; [now rewrite app_nil_r|].
+      split; [rq|congruence].
+  - destruct (perform_error o fd _) as [[o1 r1] f1] eqn:PE. inversion E; subst.
+    destruct (perform_error_write _ _ _ _ _ _ _ WI GE PE) as (A1 & A2 & A3 & A4).
+    rewrite A2. split; auto. split; [change (zlen (@nil Z)) with 0; lia|]. split; [now rewrite app_nil_r|]. auto.
+Qed.
+
+Lemma WInv_high sub o : WInv sub o -> 0 <= o_high o.
+Proof. intros (_ & _ & _ & _ & _ & _ & _ & H). exact H. Qed.
+
+Lemma dd_data_write o1 d o2 : o_write o1 = true -> dd_data true o1 = (d, o2) ->
+  d = dsub (o_data o1) (o_buf_len o1) (o_length o1) /\ o_write o2 = true /\ o_total o2 = o_total o1.
+Proof.
+  intros W E. unfold dd_data in E. rewrite W in E. cbn [negb] in E.
+  destruct (_ && _) in E; inversion E; subst; cbn; auto.
+Qed.
+
+Lemma deliver_done_write sub stp o : WInv sub o ->
+  let E := if (o_err o =? 0) && stp then ECANCELED else o_err o in
+  exists pre k, snd (deliver_data stp FL_DONE o) = pre ++ [k] /\ c_done k = true /\ c_total k = o_total o /\
+    c_err k = E /\ c_data k = if E =? 0 then None else Some (skipn (Z.to_nat (o_total o)) sub).
+Proof.
+  intros WI E. pose proof (unwritten_flat sub o WI) as U. pose proof WI as (W & _).
+  unfold deliver_data. cbn [f_deliver f_done FL_DONE orb]. unfold dd_decide. cbn [negb o_err set_flagd].
+  subst E.
+  destruct ((o_err o =? 0) && stp);
+    (destruct (dd_data true _) as [d o2] eqn:DD; apply dd_data_write in DD; [|cbn; exact W];
+     destruct DD as (Dd & W2 & T2); cbn in Dd, T2;
+     unfold dd_finish; cbn [negb orb f_noempty FL_DONE andb];
+     match goal with |- context [handler_calls ?w FL_DONE ?f ?dd ?e ?t] =>
+       destruct (handler_calls_done_err w FL_DONE f dd e t eq_refl) as (pre & k & EE & D & Er & Dk & Tk) end;
+     exists pre, k; cbn [snd]; rewrite Dk by exact W2; rewrite Dd, U; repeat split; auto; congruence).
+Qed.
+
+Definition wcalls_ok (sub : list Z) (tot : Z) (cs : list call) : Prop :=
+  Forall (fun k => wcall_ok sub (c_total k) k /\ 0 <= c_total k <= tot) cs.
+
+Definition WFin (sub : list Z) (s : st) : Prop :=
+  exists pre k, s_calls s = pre ++ [k] /\ c_done k = true /\ c_total k = o_total (s_op s) /\
+    ((c_err k <> 0 /\ c_data k = Some (skipn (Z.to_nat (o_total (s_op s))) sub)) \/
+     (c_err k = 0 /\ c_data k = None /\ o_total (s_op s) = zlen sub)).
+
+Definition WB (sub : list Z) (o : op) (calls : list call) (io : list Z) : Prop :=
+  WInv sub o /\ io = firstn (Z.to_nat (o_total o)) sub /\ wcalls_ok sub (o_total o) calls.
+
+Definition WS (sub : list Z) (s : st) : Prop :=
+  WB sub (s_op s) (s_calls s) (s_io s) /\
+  match s_phase s with Performed r => RQ (s_op s) r | Completed => WFin sub s | _ => True end.
+
+Lemma wcalls_new sub tot cs : 0 <= tot -> Forall (wcall_ok sub tot) cs -> wcalls_ok sub tot cs.
+Proof.
+  intros Ht H. unfold wcalls_ok. eapply Forall_impl; [|exact H]. cbn. intros k (A & B).
+  unfold wcall_ok. rewrite A. repeat split; auto; lia.
+Qed.
+
+Lemma WB_deliver sub stp fl o calls io o' cs : WB sub o calls io -> deliver_data stp fl o = (o', cs) ->
+  WB sub o' (calls ++ cs) io /\ o_total o' = o_total o /\ (o_err o <> 0 -> o_err o' <> 0) /\ o_length o' = o_length o.
+Proof.
+  intros (WI & IO & CS) E.
+  destruct (deliver_write _ _ _ _ _ _ WI E) as (WI' & T' & C' & E').
+  pose proof WI as (_ & L & B & _). pose proof WI' as (_ & L' & _).
+  split; [|repeat split; auto; congruence].
+  unfold WB. rewrite T'. split; [exact WI'|]. split; [exact IO|].
+  apply Forall_app. split; auto. apply wcalls_new; auto. lia.
+Qed.
+
+Lemma RQ_keep o o' r : RQ o r -> o_total o' = o_total o -> o_length o' = o_length o -> (o_err o <> 0 -> o_err o' <> 0) ->
+  RQ o' r.
+Proof.
+  intros (A & B & C & D) T L E. unfold RQ. rewrite T, L. repeat split; auto.
+  intros X. destruct (A X); auto.
+Qed.
+
+Lemma WS_with_deliver sub s fl ph : WS sub s -> s_phase s <> Completed ->
+  (match ph with Performed r => s_phase s = Performed r | Completed => False | _ => True end) ->
+  WS sub (with_deliver s fl ph).
+Proof.
+  intros (B & P) NC Hph. unfold with_deliver. destruct (deliver_data _ _ _) as [o cs] eqn:E.
+  destruct (WB_deliver _ _ _ _ _ _ _ _ B E) as (B' & T & Er & L).
+  unfold WS. cbn. split; auto.
+  destruct ph; auto; try contradiction. rewrite Hph in P. eapply RQ_keep; eauto.
+Qed.
+
+Lemma WS_complete sub s : WB sub (s_op s) (s_calls s) (s_io s) ->
+  (o_total (s_op s) = o_length (s_op s) \/ o_err (s_op s) <> 0 \/ s_stopped s = true) ->
+  WS sub (complete s).
+Proof.
+  intros B Cond. unfold complete. destruct (deliver_data _ _ _) as [o cs] eqn:E.
+  destruct (WB_deliver _ _ _ _ _ _ _ _ B E) as (B' & T & Er & L).
+  unfold WS. cbn. split; auto.
+  destruct B as (WI & _). pose proof WI as (_ & Len & _).
+  destruct (deliver_done_write sub (s_stopped s) (s_op s) WI) as (pre & k & Ek & Dk & Tk & Erk & Dak).
+  rewrite E in Ek. cbn in Ek. subst cs.
+  unfold WFin. cbn. exists (s_calls s ++ pre), k. rewrite app_assoc. rewrite T.
+  repeat split; auto.
+  cbv zeta in Erk, Dak. rewrite <- Erk in Dak.
+  destruct (Z.eqb_spec (c_err k) 0) as [Z0|Z0].
+  - right. repeat split; auto. rewrite <- Len.
+    rewrite Erk in Z0. destruct ((o_err (s_op s) =? 0) && s_stopped s) eqn:C1; [discriminate|].
+    destruct Cond as [C|[C|C]]; auto; [congruence|].
+    rewrite C, andb_true_r in C1. apply Z.eqb_neq in C1. congruence.
+  - left. split; auto.
+Qed.
+
+Definition wresult_ok (c : cfg) (s : st) (e : event) : Prop :=
+  match e, s_phase s with
+  | EvPerform rs, Picked => wres_ok c (s_op s) rs
+  | EvFdErr x, _ => x <> 0
+  | _, _ => True
+  end.
+Fixpoint wrun_ok (c : cfg) (s : st) (evs : list event) : Prop :=
+  match evs with [] => True | e :: t => wresult_ok c s e /\ wrun_ok c (step c s e) t end.
+
+Lemma WB_set_err sub o calls io e : WB sub o calls io -> WB sub (set_err o e) calls io.
+Proof. intros (A & B & C). unfold WB. split; [now apply WInv_set_err|]. cbn. auto. Qed.
+Lemma WB_set_flagd sub o calls io b : WB sub o calls io -> WB sub (set_flagd o b) calls io.
+Proof. intros (A & B & C). unfold WB. split; [now apply WInv_set_flagd|]. cbn. auto. Qed.
+
+Lemma WS_phase sub s ph : WS sub s -> s_phase s <> Completed ->
+  (match ph with Performed r => RQ (s_op s) r | Completed => False | _ => True end) -> WS sub (set_phase s ph).
+Proof. intros (B & _) _ H. unfold WS. cbn. split; auto. destruct ph; auto; contradiction. Qed.
+
+Lemma step_WS c sub s e : WS sub s -> wresult_ok c s e -> s_fderr s <> 0 \/ s_fderr s = 0 -> WS sub (step c s e).
+Proof.
+  intros H Hok _. pose proof H as (B & P).
+  destruct e; cbn [step]; try exact H.
+  - (* Check *) destruct (s_phase s) eqn:Ph; try exact H.
+    destruct (Z.eqb_spec (get_error (s_closed s) (s_stopped s) (s_fderr s) true) 0) as [G|G]; cbn [negb].
+    + destruct (_ && _).
+      * apply WS_with_deliver; auto; rewrite Ph; auto; discriminate.
+      * apply WS_phase; auto; rewrite Ph; auto; discriminate.
+    + apply WS_complete; cbn; [now apply WB_set_err|auto].
+  - (* Perform *) destruct (s_phase s) eqn:Ph; try exact H.
+    unfold wresult_ok in Hok. rewrite Ph in Hok.
+    destruct (perform _ _ _ _ _ _) as [[[o r] f] moved] eqn:E.
+    destruct B as (WI & IO & CS).
+    destruct (perform_write _ _ _ _ _ _ _ _ _ _ _ WI (WInv_high _ _ WI) Hok E) as (WI' & T' & IO' & Q & _).
+    unfold WS, WB. cbn. split; [|exact Q]. split; [exact WI'|]. split; [rewrite IO, IO'; reflexivity|].
+    pose proof (zlen_nonneg moved).
+    eapply Forall_impl; [|exact CS]. cbn. intros k (A1 & A2). split; auto. lia.
+  - (* Act *) destruct (s_phase s) eqn:Ph; try exact H.
+    destruct P as (Q1 & Q2 & Q3 & Q4).
+    destruct (Z.eqb_spec result DISPATCH_OP_DELIVER); [apply WS_with_deliver; auto; rewrite Ph; discriminate|].
+    destruct (Z.eqb_spec result DISPATCH_OP_DELIVER_AND_COMPLETE); [contradiction|].
+    destruct (Z.eqb_spec result DISPATCH_OP_COMPLETE); [apply WS_complete; auto; destruct (Q1 e); auto|].
+    destruct (Z.eqb_spec result DISPATCH_OP_COMPLETE_RESUME); [contradiction|].
+    destruct (Z.eqb_spec result DISPATCH_OP_RESUME); [apply WS_phase; auto; rewrite Ph; discriminate|].
+    destruct (Z.eqb_spec result DISPATCH_OP_ERR); [apply WS_complete; auto|].
+    destruct (Z.eqb_spec result DISPATCH_OP_FD_ERR).
+    + destruct (o_disk (s_op s)); [apply WS_complete; auto | apply WS_phase; auto; rewrite Ph; discriminate].
+    + apply WS_phase; auto; rewrite Ph; discriminate.
+  - (* Timer *) destruct (s_phase s) eqn:Ph; try exact H;
+    (destruct (negb _); [exact H|]);
+    (destruct (_ && _);
+      [unfold WS; cbn; rewrite ?Ph; (split; [now apply WB_set_flagd|]); try exact I; try (unfold RQ in *; cbn; exact P)
+      |apply WS_with_deliver; auto; rewrite Ph; auto; discriminate]).
+  - (* Cleanup *) destruct (s_phase s) eqn:Ph; try exact H;
+    (destruct (is_active s); [exact H|]);
+    (destruct fd_wide;
+      [destruct (Z.eqb_spec (s_fderr s) 0); [exact H|];
+       apply WS_complete; cbn;
+         [destruct (Z.eqb_spec (o_err (s_op s)) 0); [now apply WB_set_err|exact B]
+         |destruct (Z.eqb_spec (o_err (s_op s)) 0); cbn; auto]
+      |destruct (s_stopped s) eqn:St; [apply WS_complete; auto|exact H]]).
+Qed.
+
+Lemma run_WS c sub evs : forall s, WS sub s -> wrun_ok c s evs -> WS sub (run c s evs).
+Proof.
+  induction evs as [|e t IH]; intros s H Hok; simpl; auto.
+  destruct Hok as [H1 H2]. apply IH; auto. apply step_WS; auto. lia.
+Qed.
+
+Lemma WS_init disk conv d p iv strict : 0 <= p_high p ->
+  WS (flat d) (st_init (op_init true disk conv (zlen (flat d)) d p iv strict)).
+Proof.
+  intros Hh. unfold WS, WB, WInv, wcalls_ok, st_init, op_init. cbn.
+  pose proof (zlen_nonneg (flat d)).
+  repeat split; auto; try lia; try discriminate; constructor.
+Qed.
+
+(* the property's write clause, for every sequence of write() results and every placement of close/stop/timer/cleanup:
+   (1) the bytes the descriptor accepted are, in order, a prefix of the submitted data;
+   (2) every handler invocation that carries data reports exactly the remainder after the bytes accepted at that moment,
+       which never exceeds what has been accepted since (a progress report never claims more than was written);
+   (3) a completed operation's last invocation has done; accepted bytes ++ its data = submitted data; with error 0 the
+       data is NULL and everything was accepted, with an error the data is exactly the unwritten remainder *)
+Theorem write_conservation : forall c disk conv d p iv strict evs,
+  0 <= p_high p ->
+  let sub := flat d in
+  let s0 := st_init (op_init true disk conv (zlen sub) d p iv strict) in
+  wrun_ok c s0 evs ->
+  let s := run c s0 evs in
+  s_io s = firstn (Z.to_nat (zlen (s_io s))) sub /\
+  Forall (fun k => 0 <= c_total k <= zlen (s_io s) /\
+                   forall l, c_data k = Some l -> firstn (Z.to_nat (c_total k)) sub ++ l = sub) (s_calls s) /\
+  (s_phase s = Completed ->
+     exists pre k, s_calls s = pre ++ [k] /\ c_done k = true /\ s_io s ++ cbytes k = sub /\
+       (c_err k = 0 -> c_data k = None /\ s_io s = sub) /\
+       (c_err k <> 0 -> c_data k = Some (skipn (Z.to_nat (zlen (s_io s))) sub))).
+Proof.
+  intros c disk conv d p iv strict evs Hh sub s0 Hok s.
+  assert (W : WS sub s) by (apply run_WS; auto; now apply WS_init).
+  destruct W as ((WI & IO & CS) & P). pose proof WI as (_ & L & B & T & _).
+  assert (ZIO : zlen (s_io s) = o_total (s_op s)).
+  { rewrite IO, zlen_firstn by lia. lia. }
+  rewrite ZIO. split; [exact IO|]. split.
+  - eapply Forall_impl; [|exact CS]. cbn. intros k ((A1 & A2) & A3). split; auto.
+    intros l El. rewrite (A2 l El). apply firstn_skipn.
+  - intros Ph. rewrite Ph in P. destruct P as (pre & k & Ec & Dk & Tk & Hk). exists pre, k.
+    split; auto. split; auto.
+    destruct Hk as [(E1 & E2)|(E1 & E2 & E3)].
+    + unfold cbytes. rewrite E2, IO. split; [apply firstn_skipn|]. split; [congruence|auto].
+    + assert (FULL : s_io s = sub) by (rewrite IO, E3; apply firstn_ge_all; lia).
+      unfold cbytes. rewrite E2, app_nil_r. split; auto. split; [auto|congruence].
+Qed.
+
+(* ================================================================== dispatch_io_barrier *)
+Definition bsub_ok (s : bst) (e : bevent) : Prop :=
+  match e with BSubmit i => ~ In i (b_sub s) | _ => True end.      (* submitted blocks are distinct objects *)
+Fixpoint brun_ok (a : bool) (s : bst) (evs : list bevent) : Prop :=
+  match evs with [] => True | e :: t => bsub_ok s e /\ brun_ok a (bstep a s e) t end.
+
+Definition BI (s : bst) : Prop :=
+  NoDup (b_sub s) /\
+  (forall op, In (LEnq op) (b_log s) -> In (IEnq op) (b_exec s)) /\
+  (forall op, In (IEnq op) (b_exec s) -> In op (b_out s) \/ In (LDone op) (b_log s)) /\
+  b_wake s = 0%nat /\
+  (length (b_notifs s ++ b_fired s) = b_susp s /\ (b_susp s <= 1)%nat) /\
+  (forall id, In id (b_notifs s ++ b_fired s) -> exists pre, b_exec s = pre ++ [IBar id]) /\
+  (b_fired s <> [] -> b_out s = []).
+
+Lemma zmem_In x l : zmem x l = true <-> In x l.
+Proof.
+  induction l as [|h t IH]; cbn; [split; [discriminate|contradiction]|].
+  rewrite orb_true_iff, IH, Z.eqb_eq. tauto.
+Qed.
+Lemma zremove_other x y l : In x l -> x <> y -> In x (zremove y l).
+Proof.
+  induction l as [|h t IH]; cbn; auto. intros [->|H] N.
+  - destruct (Z.eqb_spec x y); [contradiction|now left].
+  - destruct (Z.eqb_spec h y); auto. right. auto.
+Qed.
+
+Lemma step_BI s e : BI s -> bsub_ok s e -> BI (bstep true s e).
+Proof.
+  intros I Hok. pose proof I as (ND & L1 & L2 & W & (P1 & P2) & P3 & F).
+  destruct e as [i| |op| |id]; cbn [bstep].
+  - (* submit *) unfold BI, b_sub in *. cbn. repeat split; auto.
+    rewrite app_assoc. apply NoDup_snoc; auto.
+  - (* the barrier queue runs a block *)
+    destruct (b_susp s) eqn:S; [|exact I].
+    destruct (b_notifs s) as [|n0 nt] eqn:N; [|cbn in P1; discriminate].
+    destruct (b_fired s) as [|f0 ft] eqn:Fi; [|cbn in P1; discriminate].
+    destruct (b_q s) as [|[op|id] rest] eqn:Q.
+    + exact I.
+    + unfold BI, b_sub in *. cbn. rewrite Q in ND. repeat split; auto; try lia;
+        try (now rewrite <- app_assoc); try (intros ? []; fail); try (intros X; now contradiction X).
+      * intros o H. apply in_app_or in H. apply in_or_app. destruct H as [H|[H|[]]]; [left; auto|inversion H; subst; right; now left].
+      * intros o H. apply in_app_or in H. destruct H as [H|[H|[]]].
+        -- destruct (L2 o H); [left; apply in_or_app; now left | right; apply in_or_app; now left].
+        -- inversion H; subst. left. apply in_or_app. right. now left.
+    + unfold BI, b_sub in *. rewrite Q in ND.
+      destruct (b_out s) as [|o0 ot] eqn:O; cbn; rewrite ?N, ?Fi; cbn; repeat split; auto; try lia;
+        try (now rewrite <- app_assoc);
+        try (intros o H; apply in_or_app; left; auto; fail);
+        try (intros o H; apply in_app_or in H; destruct H as [H|[H|[]]]; [rewrite ?O in *; now apply L2|discriminate]);
+        try (intros x [<-|[]]; eauto);
+        try (intros X; now contradiction X); try discriminate.
+  - (* dispatch_group_leave *)
+    destruct (zmem op (b_out s)) eqn:M; [|exact I].
+    apply zmem_In in M.
+    assert (Fi : b_fired s = []).
+    { destruct (b_fired s) eqn:E; auto. rewrite F in M by discriminate. contradiction. }
+    assert (K : forall o, In (IEnq o) (b_exec s) -> In o (zremove op (b_out s)) \/ In (LDone o) (b_log s ++ [LDone op])).
+    { intros o H. destruct (L2 o H) as [H1|H1].
+      - destruct (Z.eq_dec o op) as [->|NE]; [right; apply in_or_app; right; now left|left; now apply zremove_other].
+      - right. apply in_or_app. now left. }
+    assert (L1' : forall o, In (LEnq o) (b_log s ++ [LDone op]) -> In (IEnq o) (b_exec s)).
+    { intros o H. apply in_app_or in H. destruct H as [H|[H|[]]]; auto. discriminate. }
+    destruct (zremove op (b_out s)) as [|r0 rt] eqn:R.
+    + unfold BI, b_sub in *. cbn. rewrite Fi in *. cbn. rewrite ?app_nil_r in *. repeat split; auto;
+      try (intros o H; destruct (K o H) as [[]|H1]; auto).
+    + unfold BI, b_sub in *. cbn. rewrite Fi in *. repeat split; auto; try (intros X; now contradiction X).
+  - (* wake: never pending with an atomic leave *) rewrite W. exact I.
+  - (* the barrier block *)
+    destruct (zmem id (b_fired s)) eqn:M; [|exact I].
+    apply zmem_In in M.
+    assert (Sh : b_notifs s = [] /\ b_fired s = [id] /\ b_susp s = 1%nat).
+    { destruct (b_notifs s) as [|n0 nt]; destruct (b_fired s) as [|f0 ft]; cbn in *; try contradiction.
+      - destruct ft; cbn in *; [|lia]. destruct M as [->|[]]. auto.
+      - rewrite app_length in P1. cbn in P1. lia. }
+    destruct Sh as (N & Fi & S).
+    unfold BI, b_sub in *. cbn. rewrite N, Fi, S in *. cbn. rewrite Z.eqb_refl. cbn. repeat split; auto;
+      try (intros ? []; fail); try (intros X; now contradiction X).
+    + intros o H. apply in_app_or in H. destruct H as [H|[H|[]]]; auto. discriminate.
+    + intros o H. destruct (L2 o H); auto. right. apply in_or_app. now left.
+Qed.
+
+Lemma run_BI evs : forall s, BI s -> brun_ok true s evs -> BI (brun true s evs).
+Proof. induction evs as [|e t IH]; intros s I H; simpl; auto. destruct H. apply IH; auto. now apply step_BI. Qed.
+Lemma BI_init : BI b_init.
+Proof. unfold BI, b_init, b_sub. cbn. repeat split; auto; try constructor; try contradiction; intros; contradiction. Qed.
+
+Lemma NoDup_app_disj {A} (a b : list A) x : NoDup (a ++ b) -> In x a -> In x b -> False.
+Proof.
+  induction a as [|h t IH]; cbn; [contradiction|]. intros ND [->|Ha] Hb; inversion ND; subst.
+  - apply H1. apply in_or_app. now right.
+  - eauto.
+Qed.
+
+(* with a group whose notifications run only at count zero (atomic leave: the ideal group of the C07 statements), in
+   every reachable state in which a barrier block has been submitted (it runs at the next BBlock, which appends LBar to
+   the log): every operation submitted before the barrier has been enqueued AND disposed (its LDone, hence all of its
+   I/O, is already in the log), and nothing submitted after the barrier has even been enqueued (no LEnq, hence no I/O) *)
+Theorem barrier_between_ideal_group : forall evs id,
+  brun_ok true b_init evs ->
+  let s := brun true b_init evs in
+  In id (b_fired s) ->
+  exists pre, b_sub s = pre ++ [IBar id] ++ b_q s /\
+    (forall op, In (IEnq op) pre -> In (LDone op) (b_log s)) /\
+    (forall op, In (IEnq op) (b_q s) -> ~ In (LEnq op) (b_log s)) /\
+    b_out s = [].
+Proof.
+  intros evs id Hok s Hf.
+  assert (I : BI s) by (apply run_BI; auto; apply BI_init).
+  destruct I as (ND & L1 & L2 & W & (P1 & P2) & P3 & F).
+  assert (O : b_out s = []) by (apply F; intros X; rewrite X in Hf; contradiction).
+  destruct (P3 id) as [pre E]; [apply in_or_app; now right|].
+  exists pre. unfold b_sub in *. rewrite E in *. rewrite <- app_assoc.
+  split; [reflexivity|]. split; [|split; [|exact O]].
+  - intros op H. destruct (L2 op) as [H1|H1]; auto.
+    + apply in_or_app. now left.
+    + rewrite O in H1. contradiction.
+  - intros op H X. apply L1 in X. eapply NoDup_app_disj; eauto.
+Qed.
+
+(* the log only grows, so what holds when the barrier block is submitted still holds when it runs *)
+Lemma bstep_log_prefix a s e : exists l, b_log (bstep a s e) = b_log s ++ l.
+Proof.
+  destruct e; cbn [bstep].
+  - exists []. cbn. now rewrite app_nil_r.
+  - destruct (b_susp s); [|exists []; now rewrite app_nil_r].
+    destruct (b_q s) as [|[op|id] rest]; [exists []; now rewrite app_nil_r|eexists; reflexivity|].
+    destruct (b_out s); exists []; cbn; now rewrite app_nil_r.
+  - destruct (zmem op (b_out s)); [|exists []; now rewrite app_nil_r].
+    destruct (zremove op (b_out s)); [destruct a|]; eexists; reflexivity.
+  - destruct (b_wake s); exists []; cbn; now rewrite app_nil_r.
+  - destruct (zmem id (b_fired s)); [eexists; reflexivity|exists []; now rewrite app_nil_r].
+Qed.
+
+(* with the group as coded (the leave that observed zero detaches the notify list in a later step: C07 notify-early),
+   the clause does not follow: operation 1 completes, its leave is held after the atomic add; operation 2 is submitted
+   and enqueued (enter), barrier 7 is submitted and registers its notification; the held leave resumes and submits it:
+   the barrier block runs while operation 2, submitted before it, is still outstanding *)
+Theorem barrier_between_refuted_with_coded_group :
+  let evs := [BSubmit (IEnq 1); BRun; BLeave 1; BSubmit (IEnq 2); BSubmit (IBar 7); BRun; BRun; BWake; BBlock 7] in
+  brun_ok false b_init evs /\
+  let s := brun false b_init evs in
+  b_log s = [LEnq 1; LDone 1; LEnq 2; LBar 7] /\ b_out s = [2] /\ b_sub s = [IEnq 1; IEnq 2; IBar 7].
+Proof. vm_compute. repeat split; auto; intuition discriminate. Qed.
